@@ -14,9 +14,20 @@ def parseStep (s : String) : Option (Int × Int × Bool) :=
     pure (a, b, o == "1")
   | _ => none
 
-/-- `brk <threshold> <windowNs> <t:t':ok,…>` → one letter per call: R(efused) K(ok) F(ailed) -/
+def dialChar : DialRes → Char
+  | .open => 'O' | .dialedOk => 'K' | .dialedFail => 'D'
+
+/-- `brk <threshold> <windowNs> <t:t':ok,…>` → one letter per call: R(efused) K(ok) F(ailed)
+    `brk dial <threshold> <windowNs> <t:t':ok,…>` → one letter per connection attempt of the discovery
+    client: O(pen, not dialled) K(dialled ok) D(ialled, failed), then the number of dials -/
 def cmdBrk (ws : List String) : String :=
   match ws with
+  | ["dial", th, w, steps] =>
+    match th.toNat?, w.toInt?, (if steps == "-" then some [] else (steps.splitOn ",").mapM parseStep) with
+    | some th, some w, some evs =>
+      let rs := (Dial.run ⟨th, w⟩ ⟨0, 0⟩ evs).2
+      String.ofList (rs.map dialChar) ++ s!" dials={Dial.dials rs}"
+    | _, _, _ => "bad-args"
   | [th, w, steps] =>
     match th.toNat?, w.toInt?, (if steps == "-" then some [] else (steps.splitOn ",").mapM parseStep) with
     | some th, some w, some evs =>
